@@ -2,6 +2,7 @@ import Props.SchedTie
 import TaskModel.Sched.TraceLemmas
 import TaskModel.Sched.OutLemmas
 import TaskModel.Gen.Codes
+import TaskModel.Sched.MonC13
 import Props.C02
 /-!
 # C03 — Fail-stop: a failing command stops all downstream work and sets the exit status
@@ -46,6 +47,15 @@ caller's task-level `ignore_error` suppresses an exit status coming back from a 
 too) and (ii) the failing dependency is the one whose error the errgroup kept (`depsDone r`
 may report any failing member; siblings see a cancelled context and may fail with `ctx`
 instead).  Dedup waiters are no longer an exception.
+
+Which statements say what (audit, session 3).  `C03_propagates_cmd`, `_call_step`, `_deps_step`, `C03_ignore_exact_*`,
+`C03_status_own / _callee / _dep / _chain`, `C03_outcome_*` are statements about the FUNCTIONS the acceptor applies
+between two labels (`afterCmd`, `stopDeps`, `wrapFor`): they say what the model computes, level by level; that the real
+executor computes the same is the acceptance of its logs.  Trace-level (every reachable configuration / every accepted
+log): `C03_no_later_cmd(_all)`, `C03_no_later_cmd_caller`, `C03_no_cmd_dependent`, `C03_result_after_cmd_failure`,
+`C03_callRes_is_callee_result`, `C03_status_full`, `C03_waiter_as_executor`, `C03_no_double_wrap`,
+`C03_statusMon_sound`.  Not proved: one trace-level statement for a failure at ANY depth below a top-level call
+(`C03_status_chain` is the function-level form; the trace form needs the side conditions listed above).
 -/
 namespace Props.C03
 open TaskModel.Sched.S2
@@ -859,5 +869,46 @@ example : failStopMonAll progI (runF.take 15 ++ [⟨2, .cmdStart 1 none false⟩
 example : ((replay progW { parallel := true } (init 2) runW).bind (·.act? 1)).map
     (fun x => (x.phase, x.started, x.res, x.kids)) = some (.done, [], .run (.exit 7), [(0, 2)]) := by decide
 example : (replay progW { parallel := true } (init 2) (runW.take 24 ++ [⟨1, .depsDone .ok⟩])).isNone = true := by decide
+
+/-! ## a task that does not compile
+
+A template error in a task-level field (`label:`, `env:`, `dir:` …) is reported by `CompiledTask`,
+which `RunTask` calls after the platform and required-variable checks and before everything else
+(`SchedTie.runTask_skeleton`).  It is not a command's exit status, but it is a failure of the task:
+nothing of the task may run and every caller must see a failure (`C03_propagates_*` apply to the
+result `generic` like to any other failure).  Whether the task compiles is program data
+(`TaskDef.compileOk`), like the guard outcomes. -/
+
+/-- **C03 (a task whose compilation fails, fails before any of its commands).** An activation of a
+task that is admitted by `platforms:`, has its required variables and does not compile is born
+with a plain error as its result, has started nothing, and all it can do is return that error. -/
+theorem C03_compile_error_before_cmds (P : Program) (F : Flags) (c : Config) (kind : Kind) (t : Nat) (d : TaskDef)
+    (hd : P[t]? = some d) (hp : d.platformOk = true) (hr : d.requiresOk = true) (hc : d.compileOk = false) :
+    (freshAct P F c kind t).phase = .early ∧ (freshAct P F c kind t).res = .generic ∧
+    (freshAct P F c kind t).res.isOk = false ∧ (freshAct P F c kind t).started = [] ∧
+    (∀ o ev y eff, stepLocal F o (freshAct P F c kind t) ev = some (y, eff) →
+      ev = .exit ∧ y.phase = .done ∧ y.res = .generic ∧ y.started = []) := by
+  have hdef : (freshAct P F c kind t).def_ = d := by
+    rw [(freshAct_fields P F c kind t).2.2.2.2.2.2.2.2.2.2.2.2.1, hd]; rfl
+  have he : S7.earlyRes d = some .generic := by simp [S7.earlyRes, hp, hr, hc]
+  obtain ⟨h1, h2⟩ := S7.freshAct_earlyRes P F c kind t .generic (by rw [hdef]; exact he)
+  have hs := (freshAct_fields P F c kind t).2.2.2.2.1
+  refine ⟨h1, h2, by rw [h2]; rfl, hs, ?_⟩
+  intro o ev y eff hst
+  obtain ⟨e1, _, e3⟩ := S7.stepLocal_early F o _ ev y eff h1 hst
+  exact ⟨e1, by rw [e3], by rw [e3]; exact h2, by rw [e3]; exact hs⟩
+
+/-- non-vacuity: task 1 does not compile; its caller (a `task:` entry of task 0) fails with 201 wrapping
+the error and does not start its next command -/
+def progCE : Program :=
+  [ { cmds := [.call 1 false, .shell 0 false false] }, { compileOk := false, cmds := [.shell 0 false false] } ]
+def runCE : List Label :=
+  [⟨1, .enter (.top 0) 0⟩, ⟨1, .acquire⟩, ⟨1, .depsRelease⟩, ⟨1, .depsReacq⟩, ⟨1, .depsDone .ok⟩, ⟨1, .guardsPassed⟩,
+   ⟨1, .callRelease 0 false⟩, ⟨2, .enter (.call 1 0 false) 1⟩, ⟨2, .exit⟩, ⟨1, .callRet 0⟩, ⟨1, .callReacq 0⟩,
+   ⟨1, .release⟩, ⟨1, .exit⟩]
+example : ((replay progCE {} (init 1) runCE).map (fun c => [1, 2].map (fun a => (c.act? a).map (fun x => (x.phase, x.res, x.started))))) =
+    some [some (.done, .run .generic, [0]), some (.done, .generic, [])] := by decide
+example : (replay progCE {} (init 1) (runCE.take 9 ++ [⟨2, .acquire⟩])).isNone = true := by decide
+example : (replay progCE {} (init 1) (runCE.take 11 ++ [⟨1, .cmdStart 1 none false⟩])).isNone = true := by decide
 
 end Props.C03
